@@ -439,7 +439,16 @@ def site(o):
     if isinstance(d, str) and d.startswith("site:"):
         _, a, b = d.strip().split(":"); return [int(a), int(b)]
     return None
-out = {"classes": {}, "ns": {}, "errors": {}}
+out = {"classes": {}, "ns": {}, "errors": {}, "cattrs": {}}
+def class_attrs(nskey, ns):
+    d = {}
+    for name, v in ns.items():
+        if isinstance(v, type) and site(v) is not None and not name.startswith("__"):
+            names = set()
+            for k in v.__mro__:
+                if k is not object: names.update(a for a in vars(k) if not a.startswith("__"))
+            d[name] = {a: tgt(getattr(v, a)) for a in names if tgt(getattr(v, a))}
+    out["cattrs"][nskey] = d
 mods = {}
 for n in modnames:
     try:
@@ -463,11 +472,13 @@ def walk_cls(c, seen):
                                        "qual": c.__module__ + "." + c.__qualname__,
                                        "isexc": issubclass(c, BaseException)}
     out["ns"]["c:" + json.dumps(s)] = {k: tgt(v) for k, v in vars(c).items() if not k.startswith("__") and tgt(v)}
+    class_attrs("c:" + json.dumps(s), dict(vars(c)))
     for v in vars(c).values():
         if isinstance(v, type): walk_cls(v, seen)
 seen = set()
 for n, m in mods.items():
     out["ns"]["m:" + n] = {k: tgt(v) for k, v in vars(m).items() if not k.startswith("__") and tgt(v)}
+    class_attrs("m:" + n, dict(vars(m)))
     for v in vars(m).values():
         if isinstance(v, type): walk_cls(v, seen)
 print(json.dumps(out))
